@@ -1795,7 +1795,6 @@ struct MapEncoder<'a> {
     keys: KeyKind<'a>,
     values: FieldEncoder<'a>,
     keys_offset: usize,
-    values_offset: usize,
 }
 
 impl<'a> MapEncoder<'a> {
@@ -1823,7 +1822,6 @@ impl<'a> MapEncoder<'a> {
                 values_nullability,
             )?,
             keys_offset: keys_arr.offset(),
-            values_offset: map.values().offset(),
         })
     }
 
@@ -1850,10 +1848,8 @@ impl<'a> MapEncoder<'a> {
         let offsets = self.map.offsets();
         let start = offsets[idx] as usize;
         let end = offsets[idx + 1] as usize;
-        let write_item = |out: &mut W, j: usize| {
-            let j_val = j.saturating_sub(self.values_offset);
-            self.values.encode(out, j_val)
-        };
+        // `offsets` index into `map.values()`, which already starts at the child's own offset
+        let write_item = |out: &mut W, j: usize| self.values.encode(out, j);
         match self.keys {
             KeyKind::Utf8(arr) => MapEncoder::<'a>::encode_map_entries(
                 out,
@@ -2009,7 +2005,6 @@ where
 struct ListEncoder<'a, O: OffsetSizeTrait> {
     list: &'a GenericListArray<O>,
     values: FieldEncoder<'a>,
-    values_offset: usize,
 }
 
 type ListEncoder32<'a> = ListEncoder<'a, i32>;
@@ -2028,7 +2023,6 @@ impl<'a, O: OffsetSizeTrait> ListEncoder<'a, O> {
                 item_plan,
                 items_nullability,
             )?,
-            values_offset: list.values().offset(),
         })
     }
 
@@ -2038,10 +2032,8 @@ impl<'a, O: OffsetSizeTrait> ListEncoder<'a, O> {
         start: usize,
         end: usize,
     ) -> Result<(), AvroError> {
-        encode_blocked_range(out, start, end, |out, row| {
-            self.values
-                .encode(out, row.saturating_sub(self.values_offset))
-        })
+        // `start..end` index into `list.values()`, which already starts at the child's own offset
+        encode_blocked_range(out, start, end, |out, row| self.values.encode(out, row))
     }
 
     fn encode<W: Write + ?Sized>(&mut self, out: &mut W, idx: usize) -> Result<(), AvroError> {
